@@ -128,7 +128,7 @@ where go : List String → String
     | none => "bad-op"
     | some v =>
       match parseSctExtValue v with
-      | none => "err"
+      | none => "err-nonfatal"   -- `parseCertificate` records a NonFatalError and still returns the certificate
       | some l => joinSp ("ok" :: toString l.length :: l.map hexOrDash)
   | _ => "bad-op"
 
